@@ -23,7 +23,7 @@ def check(name):
 
 def pdb_cfg(kind, nkeys=2, nvals=2, maxcalls=3, maxops=2, maxcrash=0, maxaux=0, fine=True, gen=False,
             feat=(), mut=(), genlen=0, spec="Spec", invariants=("TypeOK", "ReadLatest"), view=None,
-            syncwal=True, ncols=None, constraint=None):
+            syncwal=True, ncols=None, constraint=None, initrid=1, initcid=0):
     ncols = ncols or {"h": 1, "r": 1, "b": 1}.get(kind, len(kind))
     def sset(xs):
         return "{" + ", ".join('"%s"' % x for x in xs) + "}"
@@ -41,6 +41,8 @@ def pdb_cfg(kind, nkeys=2, nvals=2, maxcalls=3, maxops=2, maxcrash=0, maxaux=0, 
              "  Feat = %s" % sset(feat),
              "  SyncWal = %s" % ("TRUE" if syncwal else "FALSE"),
              "  SyncData = TRUE",
+             "  InitRid = %d" % initrid,
+             "  InitCid = %d" % initcid,
              "  Mut = %s" % sset(mut),
              "  GenLen = %d" % genlen,
              "SPECIFICATION %s" % spec]
@@ -146,6 +148,9 @@ def gen_and_replay(rep, cols, gencfg_kw, num, depth, seed, nkeys, nvals, inner_i
                            "index": r["i"], "inner_images": inner_images, "small": small, "behaviour": b},
                           ctx=ctx)
     rep.extra["crash_images_opened"] = rep.extra.get("crash_images_opened", 0) + images
+    for key, pred in (("crash_steps", lambda e: True), ("crash_steps_with_2plus_log_files", lambda e: e.get("nfiles", 0) >= 2),
+                      ("crash_steps_with_recycled_file_inversion", lambda e: e.get("inv"))):
+        rep.extra[key] = rep.extra.get(key, 0) + sum(1 for b in behs for e in b if e.get("a") == "Crash" and pred(e))
     rep.extra["behaviours_diverged_within_bounds"] = rep.extra.get("behaviours_diverged_within_bounds", 0) + \
         sum(1 for r in results if r.get("diverged"))
     if behs:
@@ -181,7 +186,8 @@ def replay(prop, path):
         log("replay: no violation reproduced")
         return 0
     if obj.get("kind") == "pdb-trace":
-        cfg = write_cfg(trace_cfg(obj["cols"], obj["nkeys"], obj["nvals"]))
+        cfg = write_cfg(trace_cfg(obj["cols"], obj["nkeys"], obj["nvals"], initrid=obj.get("initrid", 1),
+                                  initcid=obj.get("initcid", 0)))
         res = vcore.tlc_trace("MCTracePdb.tla", cfg, obj["trace"])
         log(res["out"][-1500:])
         if not res["accepted"]:
@@ -205,9 +211,9 @@ def replay(prop, path):
 # C01
 
 C01_COLS = [
-    [{"kind": "hash"}, {"kind": "hash", "uniform": True}],
+    [{"kind": "hash"}, {"kind": "hash", "uniform": True, "grow": True}],
     [{"kind": "hash", "comp": "lz4", "threshold": 0}, {"kind": "hash", "comp": "snappy", "threshold": 100}],
-    [{"kind": "hash", "uniform": True, "preimage": True}, {"kind": "hash", "comp": "lz4"}],
+    [{"kind": "hash", "uniform": True, "preimage": True, "grow": True}, {"kind": "hash", "comp": "lz4"}],
 ]
 
 
@@ -246,16 +252,17 @@ def c01(tier):
 # ---------------------------------------------------------------------------
 # implementation -> specification: recorded traces validated by TLC (TracePdb.tla)
 
-def trace_cfg(cols, nkeys, nvals, invariants=("TypeOK", "ReadLatest", "LayerHandOver")):
+def trace_cfg(cols, nkeys, nvals, invariants=("TypeOK", "ReadLatest", "LayerHandOver"), initrid=1, initcid=0):
     return pdb_cfg(kind=model_kinds(cols), nkeys=nkeys, nvals=nvals, maxcalls=1000000, maxops=4, maxcrash=1000000,
+                   initrid=initrid, initcid=initcid,
                    maxaux=1000000, fine=True, gen=False, feat=("crash", "restart", "reject", "aux"), spec="TraceSpec",
                    view="TraceView", invariants=invariants).replace("  GenLen = 0\n", "") \
         .replace("CHECK_DEADLOCK FALSE", "POSTCONDITION TraceAccepted\nCHECK_DEADLOCK FALSE")
 
 
-def validate_trace(rep, trace_path, cols, nkeys, nvals, label, meta):
+def validate_trace(rep, trace_path, cols, nkeys, nvals, label, meta, initrid=1, initcid=0):
     """TLC decides whether the recorded trace is a behaviour of the specification."""
-    cfg = write_cfg(trace_cfg(cols, nkeys, nvals))
+    cfg = write_cfg(trace_cfg(cols, nkeys, nvals, initrid=initrid, initcid=initcid))
     res = vcore.tlc_trace("MCTracePdb.tla", cfg, trace_path)
     rep.traces += 1
     rep.evaluations += 1
@@ -279,7 +286,8 @@ def validate_trace(rep, trace_path, cols, nkeys, nvals, label, meta):
             ctx = "".join(lines[max(0, res["matched"] - 30): res["matched"] + 1])
         rep.violation("recorded trace rejected by the specification after %s of %s events: %s [cols=%s]"
                       % (res.get("matched"), n_events, first[:400], model_kinds(cols)),
-                      {"kind": "pdb-trace", "trace": keep, "cols": cols, "nkeys": nkeys, "nvals": nvals, "meta": meta},
+                      {"kind": "pdb-trace", "trace": keep, "cols": cols, "nkeys": nkeys, "nvals": nvals, "meta": meta,
+                       "initrid": initrid, "initcid": initcid},
                       ctx=ctx)
     return res
 
@@ -300,7 +308,8 @@ def record_and_validate(rep, cols, nkeys, nvals, steps, seed, crash=0, label="",
         rep.violation("driver: %s [cols=%s seed=%d]" % (pr, model_kinds(cols), seed),
                       {"kind": "pdb-record", "cols": cols, "nkeys": nkeys, "nvals": nvals, "steps": steps, "seed": seed,
                        "crash": crash, "small": small})
-    res = validate_trace(rep, out, cols, nkeys, nvals, label, meta)
+    res = validate_trace(rep, out, cols, nkeys, nvals, label, meta, initrid=summary.get("init_rid", 1),
+                         initcid=summary.get("init_cid", 0))
     rep.nontrivial.add("trace:%s:%d" % (label, seed))
     if len(rep.samples) < 4:
         with open(out) as f:
@@ -349,6 +358,10 @@ def crash_models(rep, thorough, prefix):
     # a log truncated before it is fully enacted loses a commit in the middle of the history
     k2 = dict(kw, maxcrash=1, mut=("truncate_any",))
     run_model(rep, pdb_cfg(**k2), prefix + "_noguard_truncate_any", expect=True)
+    # log files must be replayed in the order of their first record id, not of their file number
+    # (truncated files are reused lowest number first)
+    k3 = dict(kw, kind="h", nkeys=2, maxcalls=3, maxops=1, maxcrash=1, fine=False, feat=("crash",), mut=("open_by_file_id",))
+    run_model(rep, pdb_cfg(**k3), prefix + "_noguard_open_by_file_id", expect=True)
     if thorough:
         kw2 = dict(kw, kind="h", nkeys=2)
         run_model(rep, pdb_cfg(**kw2), prefix + "(h,2 keys,2 calls,2 crashes)", timeout=3000)
@@ -369,11 +382,13 @@ def c02(tier):
     vcore.build_harness()
     thorough = tier == "thorough"
     crash_models(rep, thorough, "MC_C02")
-    num = 120 if thorough else 14
+    num = 150 if thorough else 30
     for i, cols in enumerate(CRASH_COLS if thorough else CRASH_COLS[:3]):
         gen_and_replay(rep, cols, dict(feat=("crash", "restart", "reject"), maxops=3, maxcrash=3,
                                        invariants=("ReadLatest", "RecoveredIsPrefix", "SyncedSurvive")),
                        num, 34, SEED + 7 + i * 13, 2, 2, inner_images=40, small=(i % 2 == 1), label="c02_%d" % i)
+    if rep.extra.get("crash_steps_with_recycled_file_inversion", 0) == 0:
+        raise ToolError("no crash with a recycled log file generated: coverage too thin")
     ntr = 8 if thorough else 2
     for j in range(ntr):
         cols = CRASH_COLS[j % len(CRASH_COLS)]
@@ -720,4 +735,128 @@ def c04(tier):
         cols = [dict(C04_COLS[j % len(C04_COLS)][0])]
         record_and_validate(rep, cols, 120 if thorough else 60, 3, 2500 if thorough else 900, SEED * 271 + j,
                             crash=1, label="c04t%d" % j, small=True, cursor=45)
+    return rep.finish()
+
+
+# ---------------------------------------------------------------------------
+# C18: single live handle
+
+def generic_replay(rep, cmd, behs, extra_args, label, kind):
+    inp = os.path.join(vcore.scratch(), "beh_%s.ndjson" % label)
+    outp = os.path.join(vcore.scratch(), "res_%s.ndjson" % label)
+    vcore.write_ndjson(inp, behs)
+    args = {"in": inp, "out": outp}
+    args.update(extra_args)
+    vcore.pdbh(cmd, args)
+    results = vcore.read_ndjson(outp)
+    for r in results:
+        b = behs[r["i"]]
+        rep.behaviours += 1
+        rep.evaluations += 1
+        if r.get("nontrivial"):
+            rep.nontrivial.add(vcore.beh_hash(b))
+        for v in r["violations"]:
+            if v["what"].startswith("harness:"):
+                raise ToolError("replay harness cannot follow the behaviour: %s" % v["what"])
+            rep.violation("%s [step %s %s]" % (v["what"], v.get("step"), v.get("a")),
+                          {"kind": kind, "cmd": cmd, "args": extra_args, "behaviour": b},
+                          ctx=json.dumps(b[: v.get("step", len(b))]))
+    if behs:
+        rep.sample({"behaviour": behs[0][:14]})
+    log("[replay] %s: %d behaviours replayed" % (label, len(results)))
+    return results
+
+
+@check("C18")
+def c18(tier):
+    rep = Report("C18", tier)
+    rep.rule = ("TLC: 3 actors (two handles of one process, one child process) x open (lock, then recovery) / commit / "
+                "drop / die, all interleavings; behaviours generated by TLC and replayed with real handles and real child "
+                "processes (killed with SIGKILL for Die): an open while a handle lives must fail with Error::Locked and "
+                "leave every file byte-identical, after drop or death the next open must succeed and see what was "
+                "committed through cleanly dropped handles; plus racing opens from 4 threads (exactly one may win); "
+                "non-trivial = an open attempted while another handle is alive")
+    rep.assumptions = ["flock semantics of the local file system (per open file description)"]
+    vcore.build_harness()
+    thorough = tier == "thorough"
+    res = vcore.tlc_check("Lock.tla", os.path.join(vcore.SPEC, "MC_Lock.cfg"), timeout=1200)
+    rep.add_model(res, "MC_Lock")
+    if not res["ok"]:
+        rep.violation("TLC: %s violated in Lock.tla" % res["violated"], {"kind": "model", "cfg": "MC_Lock", "tlc_tail": res["out"][-5000:]})
+    else:
+        log("[tlc] MC_Lock: %d distinct states: ok" % res["distinct"])
+    behs, gen, _ = vcore.tlc_simulate("Lock.tla", os.path.join(vcore.SPEC, "GEN_Lock.cfg"), 400 if thorough else 60, 16, SEED)
+    rep.transitions += gen
+    generic_replay(rep, "lock-replay", behs, {"children": "3"}, "c18", "lock-replay")
+    p = vcore.pdbh("lock-race", {"rounds": 200 if thorough else 40})
+    summary = json.loads(p.stdout.strip().splitlines()[-1])
+    rep.evaluations += summary["rounds"]
+    rep.extra["racing_open_rounds"] = summary["rounds"]
+    if summary["bad"]:
+        rep.violation("racing opens: %d of %d rounds did not have exactly one successful open" % (summary["bad"], summary["rounds"]),
+                      {"kind": "lock-race", "rounds": summary["rounds"]})
+    return rep.finish()
+
+
+# ---------------------------------------------------------------------------
+# C17: administration
+
+@check("C17")
+def c17(tier):
+    rep = Report("C17", tier)
+    rep.rule = ("TLC enumerates EVERY valid column option record (flags x compression) as a round-trip behaviour: create a "
+                "database with it, reopen with the same record (must succeed), then with each single field changed (must "
+                "fail and leave all files byte-identical); plus random administration histories (create with 1..3 columns of "
+                "mixed kinds, commits, crash images with pending logs, add_column, drop_last_column, reset_column with/without "
+                "new options, clear_column, opens with wrong column count or one changed flag, opens of a missing database) "
+                "replayed with the content of every plain column compared after every step; non-trivial = every behaviour "
+                "(each has at least one failing open or an administration call)")
+    rep.assumptions = ["content is tracked for columns without multitree/rc/preimage; other kinds take part as option records "
+                       "and as victims/bystanders of administration calls"]
+    vcore.build_harness()
+    thorough = tier == "thorough"
+    # round trip: exhaustive
+    res = vcore.tlc_check("Admin.tla", os.path.join(vcore.SPEC, "MC_Admin_rt.cfg"), workers=1, timeout=1200)
+    rep.add_model(res, "MC_Admin_roundtrip")
+    behs, seen = [], set()
+    for line in res["out"].splitlines():
+        if line.startswith('"REPLAY '):
+            s = json.loads(line)[7:]
+            if s not in seen:
+                seen.add(s)
+                behs.append(json.loads(s))
+    if not res["ok"] or len(behs) < 100:
+        raise ToolError("round-trip enumeration failed (%d behaviours)" % len(behs))
+    rep.extra["option_records_enumerated"] = len(behs)
+    rep.extra["exhaustive_roundtrip"] = True
+    generic_replay(rep, "admin-replay", behs, {}, "c17rt", "admin-replay")
+    gbehs, gen, _ = vcore.tlc_simulate("Admin.tla", os.path.join(vcore.SPEC, "GEN_Admin.cfg"), 600 if thorough else 80, 16, SEED)
+    rep.transitions += gen
+    generic_replay(rep, "admin-replay", gbehs, {}, "c17", "admin-replay")
+    return rep.finish()
+
+
+# ---------------------------------------------------------------------------
+# C20: migration
+
+@check("C20")
+def c20(tier):
+    rep = Report("C20", tier)
+    rep.rule = ("TLC: all source histories of <= 3 set/reference/dereference operations x all pairs of hash-column option "
+                "records (preimage, rc, compression) x overwrite x forced selection, with NoKeyLost / CountsCarryOver / "
+                "SourceKept; behaviours generated by TLC (2 columns, 3 keys, values spread over size tiers incl. multipart, "
+                "optionally a source with an index growth pending) replayed through parity_db::migrate and both databases "
+                "projected (get + value iteration for counts); non-trivial = options differ or a column is forced")
+    rep.assumptions = ["source and destination share the uniform flag and salt (hashing scheme kept)"]
+    vcore.build_harness()
+    thorough = tier == "thorough"
+    res = vcore.tlc_check("Migrate.tla", os.path.join(vcore.SPEC, "MC_Migrate.cfg"), timeout=2400)
+    rep.add_model(res, "MC_Migrate")
+    if not res["ok"]:
+        rep.violation("TLC: %s violated in Migrate.tla" % res["violated"], {"kind": "model", "cfg": "MC_Migrate", "tlc_tail": res["out"][-5000:]})
+    else:
+        log("[tlc] MC_Migrate: %d distinct states: ok" % res["distinct"])
+    behs, gen, _ = vcore.tlc_simulate("Migrate.tla", os.path.join(vcore.SPEC, "GEN_Migrate.cfg"), 500 if thorough else 70, 12, SEED)
+    rep.transitions += gen
+    generic_replay(rep, "migrate-replay", behs, {"seed": SEED}, "c20", "migrate-replay")
     return rep.finish()
